@@ -23,6 +23,12 @@ import (
 //	crash                                               power loss (unsynced file data is dropped) + restart; only on
 //	                                                    the crashable file systems of the durability family
 //	close
+//	lnew KIND UNDER                                     db.NewBufferBatch (KIND=buf) / db.NewSyncBatch (KIND=sync) over
+//	                                                    UNDER = bN (an indexed batch) | lM (an earlier layer): STACKS of
+//	                                                    wrappers, several over one batch, over each other (ModelStack.lean)
+//	lput L K V | ldel L K | ldelrange L S E | lget L K F | lhas L K | lscan L P U | lsize L | lwrite L | lclose L
+//	                                                    the methods of db.IndexedBatch on layer L
+//	lflush L                                            BufferBatch.Flush of layer L (bad-handle on a SyncBatch)
 //
 // Calls on a batch that was wrapped in db.BufferBatch are sent to the driver as the layered ops of
 // ModelBuf.lean (newbuf, bufput, bufdel, bufget, bufflush, bufwrite, bufclose; bufother for the four
@@ -86,7 +92,23 @@ func (o Op) Line() string {
 		return fmt.Sprintf("bufflush %d", o.H)
 	case "psize":
 		return "psize " + hx(o.Key) + " " + b01(o.U)
-	case "flush", "xupdate":
+	case "lnew":
+		return "lnew " + o.Wrap + " " + o.Src
+	case "lput":
+		return fmt.Sprintf("lput %d %s %s", o.H, hx(o.Key), hx(o.Val))
+	case "ldel":
+		return fmt.Sprintf("ldel %d %s", o.H, hx(o.Key))
+	case "ldelrange":
+		return fmt.Sprintf("ldelrange %d %s %s", o.H, hx(o.Key), hx(o.End))
+	case "lget":
+		return fmt.Sprintf("lget %d %s %s", o.H, hx(o.Key), b01(o.Fail))
+	case "lhas":
+		return fmt.Sprintf("lhas %d %s", o.H, hx(o.Key))
+	case "lscan":
+		return fmt.Sprintf("lscan %d %s %s", o.H, hx(o.Key), b01(o.U))
+	case "lsize", "lwrite", "lclose", "lflush":
+		return fmt.Sprintf("%s %d", o.K, o.H)
+	case "flush", "xupdate", "path":
 		return "" // harness-only: no effect in the models / not modelled (compared backend against backend)
 	case "newbatch":
 		return "newbatch " + b01(o.Idx)
